@@ -82,6 +82,7 @@ type DgramConn struct {
 	ServerPanics []string
 	FateLog      []Fate
 	OnExchange   func(n int) // optional spin guard
+	wire         []byte
 }
 
 func NewDgramConn(srv *memServerComm, path *DnsPath, port int) *DgramConn {
@@ -159,8 +160,16 @@ func (d *DgramConn) Read(p []byte) (int, error) {
 	}
 }
 
+// Wire returns every datagram that crossed this client's path so far, concatenated.
+func (d *DgramConn) Wire() []byte {
+	d.mu.Lock()
+	defer d.mu.Unlock()
+	return append([]byte{}, d.wire...)
+}
+
 func (d *DgramConn) push(b []byte) {
 	d.mu.Lock()
+	d.wire = append(d.wire, b...)
 	d.inbox = append(d.inbox, b)
 	close(d.wake)
 	d.wake = make(chan struct{})
@@ -244,6 +253,7 @@ func (d *DgramConn) Write(p []byte) (int, error) {
 	exch := d.Exchanges
 	q := append([]byte{}, p...)
 	d.history = append(d.history, q)
+	d.wire = append(d.wire, q...)
 	cb := d.OnExchange
 	d.mu.Unlock()
 	if cb != nil {
